@@ -101,6 +101,14 @@ def readConv (fmt : String) (kd : Kind) (file : Bytes) (s : Settings) : Obs :=
 def settingsOf (tlx tly dx dy : Nat) : Settings := { tlx := tlx, tly := tly, dx := dx, dy := dy }
 
 /-- the image type the dynamic-image reader constructs (format checkers of */detail/read.hpp) out of any_image<gray8, rgb8, rgba8> -/
+def anyTypeFixed (fmt : String) (file : Bytes) : Option String :=
+  -- format checkers that follow is_allowed (proposed_fixes/C13-any-image-format-checkers.diff)
+  match fmt with
+  | "bmp" | "bmprle" => (bmpReadHeader file).bind fun (info, _) => (bmpNativeBits info).map fun b => if b = 32 then "rgba8" else "rgb8"
+  | "pnm" => (pnmReadHeader file).bind fun (info, _) =>
+      if info.type = 1 ∨ info.type = 2 ∨ info.type = 5 then some "gray8" else if info.type = 3 ∨ info.type = 6 then some "rgb8" else none
+  | _ => none
+
 def anyType (fmt : String) (file : Bytes) : Option String :=
   match fmt with
   | "bmp" | "bmprle" => (bmpReadHeader file).map fun (info, _) => if info.bpp < 32 then "rgb8" else "rgba8"
@@ -170,10 +178,12 @@ def modelRaw (line : String) : String :=
       let sub := readNative fmt dst bs (settingsOf tlx.toNat tly.toNat dx.toNat dy.toNat)
       "F " ++ full.show ++ " | fn " ++ sub.show ++ " | fp " ++ sub.show ++ " | is " ++ sub.show
     | _ => "bad-op"
-  | ["paths", fmt, dst, file] =>
+  | [paths, fmt, dst, file] =>
+    if paths ≠ "paths" ∧ paths ≠ "pathsA" then "bad-op" else
     let bs := parseHex file
     let img := readNative fmt dst bs Settings.full
-    let any := match anyType fmt bs with
+    -- pathsA: the tree's bmp / pnm format checkers follow is_allowed
+    let any := match (if paths = "pathsA" ∧ fmt ≠ "targa" then anyTypeFixed fmt bs else anyType fmt bs) with
       | some t => (match readNative fmt t bs Settings.full with
           | .ok f => t ++ " " ++ (Obs.ok f).show
           | _ => "none err:io")
@@ -236,7 +246,10 @@ def judge (op obs : String) : String :=
   let fail (s : String) := "fail " ++ s
   let parts := splitBars (words obs)
   if words obs = ["ub"] then fail "read-undefined-behaviour" else
-  match words op with
+  let opw := match words op with
+    | "pathsA" :: r => "paths" :: r
+    | w => w
+  match opw with
   | ["crop", _fmt, dst, tlx, tly, dx, dy, _file] =>
     match ints [tlx, tly, dx, dy], parts with
     | some [tlx, tly, dx, dy], [("F" :: f), ("fn" :: a), ("fp" :: b), ("is" :: c)] =>
@@ -283,6 +296,53 @@ def judge (op obs : String) : String :=
         else if cv' ≠ r then fail "read_and_convert_view-equals-color_convert-of-native-read"
         else "ok"
       | _, _, _ => fail ("unreadable-observation:" ++ (obs.take 60).toString)
+    | _ => fail ("shape:" ++ (obs.take 60).toString)
+  -- formats decoded by external libraries: same Spec, judged on the implementation's observations only
+  | ["xcrop", _fmt, _pix, bpp, _w, _h, tlx, tly, dx, dy, _src] =>
+    match ints [bpp, tlx, tly, dx, dy], parts with
+    | some [bpp, tlx, tly, dx, dy], (("F" :: f) :: subs) =>
+      match parseObs f with
+      | some (.ok full) =>
+        let want := Obs.ok (cropFlat bpp.toNat tlx.toNat tly.toNat dx.toNat dy.toNat full)
+        let got := subs.map fun p => parseObs (p.drop 1)
+        if subs.length < 2 then fail "shape"
+        else if got.any (· = some Obs.ub) then fail "sub-rectangle-read-undefined-behaviour"
+        else if got.head? ≠ some (some want) then fail "sub-rectangle-is-crop-of-full-read"
+        else if got.any (· ≠ some want) then fail "devices-agree"
+        else "ok"
+      | some .err => if subs.all (fun p => parseObs (p.drop 1) = some Obs.err) then "ok" else fail "devices-agree"
+      | _ => fail ("unreadable-observation:" ++ (obs.take 60).toString)
+    | _, _ => fail ("shape:" ++ (obs.take 60).toString)
+  | ["xpaths", _fmt, _pix, _bpp, _w, _h, _src] =>
+    match parts with
+    | [("img" :: i), ("view" :: v), ("info" :: inf)] =>
+      match parseObs i, parseObs v.dropLast with
+      | some img, some view =>
+        if v.getLast? ≠ some "canary-ok" then fail "write-outside-destination-view"
+        else if view ≠ img then fail "read_view-equals-read_image"
+        else match img, inf with
+          | .ok f, [w, h] => if w.toNat? ≠ some f.w ∨ h.toNat? ≠ some f.h then fail "info-dimensions" else "ok"
+          | .ok _, _ => fail "info-missing"
+          | _, _ => "ok"
+      | _, _ => fail ("unreadable-observation:" ++ (obs.take 60).toString)
+    | _ => fail ("shape:" ++ (obs.take 60).toString)
+  | ["xconv", _fmt, _pix, _bpp, _w, _h, _dst, _tlx, _tly, _dx, _dy, _src] =>
+    match parts with
+    | [("nat" :: _), ("conv" :: c), ("ref" :: r), ("cview" :: cv)] =>
+      match parseObs c, parseObs r, parseObs cv.dropLast with
+      | some c, some r, some cv' =>
+        if cv.getLast? ≠ some "canary-ok" then fail "write-outside-destination-view"
+        else if c ≠ r then fail "read_and_convert-equals-color_convert-of-native-read"
+        else if cv' ≠ r then fail "read_and_convert_view-equals-color_convert-of-native-read"
+        else "ok"
+      | _, _, _ => fail ("unreadable-observation:" ++ (obs.take 60).toString)
+    | _ => fail ("shape:" ++ (obs.take 60).toString)
+  | ["xsmall", _fmt, _pix, _bpp, _w, _h, _vw, _vh, _tlx, _tly, _dx, _dy, _src] =>
+    match words obs with
+    | [r, canary] =>
+      if canary ≠ "canary-ok" then fail "write-outside-destination-view"
+      else if r ≠ "err:io" then fail "too-small-view-rejected"
+      else "ok"
     | _ => fail ("shape:" ++ (obs.take 60).toString)
   | ["small", _fmt, _dst, _vw, _vh, _tlx, _tly, _dx, _dy, _file] =>
     match words obs with
